@@ -76,6 +76,10 @@ def match_known(prop, rec, known):
             return v == b
         if not all(ok(a, b) for a, b in cm.items()):
             continue
+        # optional explicit list of failing configurations (every cfg key except the free-text "family" must agree)
+        ex = k.get("cfg_exact_any")
+        if ex is not None and {a: b for a, b in rec["cfg"].items() if a != "family"} not in ex:
+            continue
         # optional failure signature: the finding only covers violations whose recorded detail contains this text
         dm = k.get("detail_match")
         if dm is not None and dm not in json.dumps(rec.get("violation", {}), default=str):
@@ -113,6 +117,8 @@ def main(argv=None):
     from symnp.array import import_all_toqito
     import_all_toqito()
     mod = importlib.import_module(f"props.{pid.lower()}")
+    from symnp.harness import guard_module
+    guard_module(mod)
     meta = mod.META
 
     if a.replay:
